@@ -221,8 +221,8 @@ def _open(task, enc, stream=None):
     from nptdms import TdmsFile
     f = stream if stream is not None else io.BytesIO(enc.data)
     if task['mode'] == 'lazy':
-        return TdmsFile.open(f)
-    return TdmsFile.read(f)
+        return TdmsFile.open(f, raw_timestamps=bool(task.get('raw_ts')))
+    return TdmsFile.read(f, raw_timestamps=bool(task.get('raw_ts')))
 
 
 def expected_full(enc, tdms_channel_len=None):
@@ -230,11 +230,11 @@ def expected_full(enc, tdms_channel_len=None):
     return s1.exp_canon(ch), ch.tcode
 
 
-def truncated_expected(enc):
+def truncated_expected(enc, raw_ts=False):
     """For shapes with a truncated final chunk the oracle keeps the complete chunks plus what the
     format rules keep of the partial chunk: contiguous -> leading channels whole; interleaved -> whole rows."""
     ch = enc.channels[A]
-    full = s1.exp_canon(ch)
+    full = s1.exp_canon(ch, raw_ts)
     last = enc.segs[-1]
     if not last['trunc']:
         return full
@@ -268,7 +268,8 @@ def truncated_expected(enc):
 
 def run_task(task):
     enc = s1.build(task['shape'])
-    full = truncated_expected(enc)
+    raw_ts = bool(task.get('raw_ts'))
+    full = truncated_expected(enc, raw_ts)
     tcode = enc.channels[A].tcode
     n = len(full)
     api, mode = task['api'], task['mode']
@@ -280,7 +281,7 @@ def run_task(task):
         seg_ends.append(acc)
 
     def canon(arr):
-        return s1.got_canon(arr, tcode) if tcode is not None else list(arr)
+        return s1.got_canon(arr, tcode, raw_ts) if tcode is not None else list(arr)
 
     def fn(ctx):
         tf = _open(task, enc)
@@ -351,7 +352,10 @@ def run_task(task):
                 except Exception as e:
                     ctx.fail('exception', exc=type(e).__name__, msg=str(e)[:100])
                 import numpy as np
-                g = canon(np.array([got]) if tcode != 0x20 else [got])[0]
+                if raw_ts and tcode == 0x44:
+                    g = ('ts', int(got.seconds), int(got.second_fractions))
+                else:
+                    g = canon(np.array([got]) if tcode != 0x20 else [got])[0]
                 alts = [z3.Or(ex(i) == c, ex(i) == c - n) for c in range(n) if full[c] == g]
                 ctx.prove(z3.Or(*alts) if alts else z3.BoolVal(False), dict(got=s1.show(g)), what='wrong-data')
                 if ctx.check(ex(i) < 0):
@@ -374,7 +378,7 @@ def signature(c):
     if what == 'exception':
         kind = 'exception:%s:%s' % (c.get('exc'), _msgclass(c.get('msg', '')))
     feats = _features(task, n)
-    return 'C04/%s/%s/%s/%s' % (task['api'], task['mode'], kind, '+'.join(feats) or 'plain')
+    return '%s/%s/%s/%s/%s' % (task.get('pid', 'C04'), task['api'], task['mode'], kind, '+'.join(feats) or 'plain')
 
 
 def _msgclass(msg):
@@ -389,13 +393,14 @@ def replay(art):
     import numpy as np
     task, inp = art['task'], art['inputs']
     enc = s1.build(task['shape'])
-    full = truncated_expected(enc)
+    raw_ts = bool(task.get('raw_ts'))
+    full = truncated_expected(enc, raw_ts)
     tcode = enc.channels[A].tcode
     n = len(full)
     api = task['api']
 
     def canon(arr):
-        return s1.got_canon(arr, tcode) if tcode is not None else list(arr)
+        return s1.got_canon(arr, tcode, raw_ts) if tcode is not None else list(arr)
 
     tf = _open(task, enc)
     try:
@@ -442,7 +447,10 @@ def replay(art):
                     return dict(sig=signature(dict(task=task, what='IndexError-for-valid-index')), request=req)
                 if exp == 'IndexError':
                     return dict(sig=signature(dict(task=task, what='wrong-data')), request=req, got=str(g))
-                got = canon(np.array([g]) if tcode != 0x20 else [g])
+                if raw_ts and tcode == 0x44:
+                    got = [('ts', int(g.seconds), int(g.second_fractions))]
+                else:
+                    got = canon(np.array([g]) if tcode != 0x20 else [g])
         except Exception as e:
             return dict(sig=signature(dict(task=task, what='exception', exc=type(e).__name__, msg=str(e)[:100])),
                         request=req, exception=repr(e)[:200])
